@@ -38,7 +38,7 @@ theorem table_facts :
 /-- what the handler's scans say (`o` = option words, `m` = the `-m` module, `fs` = the script word found), for each
     thing `r` CPython may do -/
 def SpecOf (o : List String) (m : Option String) (fs : Option String) : Runs → Prop
-  | .infoOnly => safeIn o = true
+  | .infoOnly => True
   | .stdin => safeIn o = false ∧ "-c" ∉ o ∧ "-m" ∉ o ∧ "-" ∈ o
   | .code _ => safeIn o = false ∧ "-c" ∈ o
   | .module m' => safeIn o = false ∧ "-c" ∉ o ∧ "-m" ∈ o ∧ m = m'
@@ -63,6 +63,24 @@ theorem spec_cons (t : String) (o : List String) (m : Option String) (r : Runs) 
   have c3 := e1 "-" (fun h => hd h.symm)
   cases r <;> simp only [SpecOf, safeIn_cons, hs, Bool.false_or, c1, c2, c3] at h ⊢ <;> exact h
 
+/-- when no help/version letter precedes the deciding character, the handler's reading of a cluster is CPython's -/
+theorem cluster_agrees (cs : List Char) (info : Bool) (h : (clusterSpecChars cs info).info = false) :
+    scanChars cs = (clusterSpecChars cs info).kind := by
+  induction cs generalizing info with
+  | nil => rfl
+  | cons c rest ih =>
+    unfold clusterSpecChars at h ⊢
+    unfold scanChars
+    by_cases hc : c = 'c'
+    · subst hc; simp
+    · by_cases hm : c = 'm'
+      · subst hm; simp
+      · by_cases hw : (c = 'W' || c = 'X') = true
+        · simp [hc, hm, hw]
+        · have hw' : (c = 'W' || c = 'X') = false := by simpa using hw
+          simp only [hc, hm, hw', ↓reduceIte, Bool.false_eq_true] at h ⊢
+          exact ih _ h
+
 theorem spec_holds (b : Bool) (l : List String) : Spec b l := by
   induction l generalizing b with
   | nil => cases b <;> simp [Spec, SpecOf, pythonRuns, splitOpts, findScript, safeIn]
@@ -74,13 +92,9 @@ theorem spec_holds (b : Bool) (l : List String) : Spec b l := by
     | false =>
       obtain ⟨f1, f2, f3, f4⟩ := table_facts
       by_cases hsafe : t ∈ safeFlags
-      · obtain ⟨h1, h2, h3, h4, h5⟩ := safe_flag_facts t hsafe
-        have e1 : pythonRuns false (t :: rest) = .infoOnly := by simp [pythonRuns, hsafe]
-        have e2 : (splitOpts false (t :: rest)).1 = t :: (splitOpts false rest).1 := by
-          simp [splitOpts, h1, h2, h3, h4, h5]
+      · have e1 : pythonRuns false (t :: rest) = .infoOnly := by simp [pythonRuns, hsafe]
         unfold Spec
-        simp only [e1, e2, SpecOf, safeIn_cons]
-        simp [hsafe]
+        simp only [e1, SpecOf]
       · by_cases hd : t = "-"
         · subst hd
           have e1 : pythonRuns false ("-" :: rest) = .stdin := by simp [pythonRuns, hsafe]
@@ -111,22 +125,108 @@ theorem spec_holds (b : Bool) (l : List String) : Spec b l := by
                 unfold Spec at this ⊢
                 simp only [e1, e2, e3]
                 exact spec_cons t _ _ _ _ hsafe hd hc hm this
-              · by_cases hs : Py.startsWith t "-" = true
-                · have e1 : pythonRuns false (t :: rest) = pythonRuns false rest := by simp [pythonRuns, hsafe, hd, hc, hm, hw, hs]
-                  have e2 : splitOpts false (t :: rest) = (t :: (splitOpts false rest).1, (splitOpts false rest).2.1, (splitOpts false rest).2.2) := by
-                    simp [splitOpts, hd, hc, hm, hw, hs]
-                  have e3 : findScript false (t :: rest) = findScript false rest := by simp [findScript, hsafe, hc, hm, hw, hs]
-                  have := ih false
-                  unfold Spec at this ⊢
-                  simp only [e1, e2, e3]
-                  exact spec_cons t _ _ _ _ hsafe hd hc hm this
-                · have hs' : Py.startsWith t "-" = false := by simpa using hs
-                  have e1 : pythonRuns false (t :: rest) = .script t rest := by simp [pythonRuns, hsafe, hd, hc, hm, hw, hs']
-                  have e2 : (splitOpts false (t :: rest)).1 = [] := by simp [splitOpts, hd, hc, hm, hw, hs']
-                  have e3 : findScript false (t :: rest) = some t := by simp [findScript, hsafe, hc, hm, hw, hs']
-                  unfold Spec
-                  simp only [e1, e2, e3, SpecOf]
-                  simp [safeIn]
+              · -- neither a tabled word nor `-`: a cluster, a long option, or the script word
+                by_cases hshort : (Py.startsWith t "-" && !Py.startsWith t "--" && decide (t.length ≥ 2)) = true
+                · have hs1 : Py.startsWith t "-" = true := by
+                    simp only [Bool.and_eq_true, Bool.not_eq_true', decide_eq_true_eq] at hshort; exact hshort.1.1
+                  have hs2 : Py.startsWith t "--" = false := by
+                    simp only [Bool.and_eq_true, Bool.not_eq_true', decide_eq_true_eq] at hshort; exact hshort.1.2
+                  have hs3 : ¬ (t.length < 2) := by
+                    simp only [Bool.and_eq_true, Bool.not_eq_true', decide_eq_true_eq] at hshort; omega
+                  have escan : scanCluster t = scanChars t.toList.tail := by
+                    simp [scanCluster, hs1, hs2, hs3]
+                  cases hinfo : (clusterSpecChars t.toList.tail false).info with
+                  | true =>
+                    have e1 : pythonRuns false (t :: rest) = .infoOnly := by
+                      simp [pythonRuns, hsafe, hd, hc, hm, hw, hshort, hinfo]
+                    unfold Spec
+                    simp only [e1, SpecOf]
+                  | false =>
+                    have hk := cluster_agrees t.toList.tail false hinfo
+                    rw [← escan] at hk
+                    cases hkind : scanCluster t with
+                    | code =>
+                      have e1 : pythonRuns false (t :: rest) = .code (rest.headD "") := by
+                        simp [pythonRuns, hsafe, hd, hc, hm, hw, hshort, hinfo, ← hk, hkind]
+                      have e2 : (splitOpts false (t :: rest)).1 = ["-c"] := by simp [splitOpts, hd, hc, hm, hw, hkind]
+                      unfold Spec
+                      simp only [e1, e2, SpecOf]
+                      simp [safeIn, f2]
+                    | module att =>
+                      by_cases hatt : att.isEmpty = true
+                      · have e1 : pythonRuns false (t :: rest) = .module rest.head? := by
+                          simp [pythonRuns, hsafe, hd, hc, hm, hw, hshort, hinfo, ← hk, hkind, hatt]
+                        have e2 : splitOpts false (t :: rest) = (["-m"], rest.head?, rest.drop 1) := by
+                          simp [splitOpts, hd, hc, hm, hw, hkind, hatt]
+                        unfold Spec
+                        simp only [e1, e2, SpecOf]
+                        simp [safeIn, f3]
+                      · have e1 : pythonRuns false (t :: rest) = .module (some att) := by
+                          simp [pythonRuns, hsafe, hd, hc, hm, hw, hshort, hinfo, ← hk, hkind, hatt]
+                        have e2 : splitOpts false (t :: rest) = (["-m"], some att, rest) := by
+                          simp [splitOpts, hd, hc, hm, hw, hkind, hatt]
+                        unfold Spec
+                        simp only [e1, e2, SpecOf]
+                        simp [safeIn, f3]
+                    | takesNext =>
+                      have e1 : pythonRuns false (t :: rest) = pythonRuns true rest := by
+                        simp [pythonRuns, hsafe, hd, hc, hm, hw, hshort, hinfo, ← hk, hkind]
+                      have e2 : splitOpts false (t :: rest) = (t :: (splitOpts true rest).1, (splitOpts true rest).2.1, (splitOpts true rest).2.2) := by
+                        simp [splitOpts, hd, hc, hm, hw, hkind]
+                      have e3 : findScript false (t :: rest) = findScript true rest := by simp [findScript, hsafe, hc, hm, hw, hkind]
+                      have := ih true
+                      unfold Spec at this ⊢
+                      simp only [e1, e2, e3]
+                      exact spec_cons t _ _ _ _ hsafe hd hc hm this
+                    | plain =>
+                      have e1 : pythonRuns false (t :: rest) = pythonRuns false rest := by
+                        simp [pythonRuns, hsafe, hd, hc, hm, hw, hshort, hinfo, ← hk, hkind]
+                      have e2 : splitOpts false (t :: rest) = (t :: (splitOpts false rest).1, (splitOpts false rest).2.1, (splitOpts false rest).2.2) := by
+                        simp [splitOpts, hd, hc, hm, hw, hkind, hs1]
+                      have e3 : findScript false (t :: rest) = findScript false rest := by simp [findScript, hsafe, hc, hm, hw, hkind, hs1]
+                      have := ih false
+                      unfold Spec at this ⊢
+                      simp only [e1, e2, e3]
+                      exact spec_cons t _ _ _ _ hsafe hd hc hm this
+                · have hshort' : (Py.startsWith t "-" && !Py.startsWith t "--" && decide (t.length ≥ 2)) = false := by simpa using hshort
+                  -- a long option (or a one-character word): `_scan_cluster` says plain
+                  have hplain : scanCluster t = .plain := by
+                    unfold scanCluster
+                    by_cases h1 : Py.startsWith t "-" = true
+                    · by_cases h2 : Py.startsWith t "--" = true
+                      · simp [h1, h2]
+                      · have h2' : Py.startsWith t "--" = false := by simpa using h2
+                        have h3 : t.length < 2 := by
+                          simp only [h1, h2', Bool.not_false, Bool.and_self, Bool.true_and, decide_eq_false_iff_not] at hshort'
+                          omega
+                        simp [h1, h2', h3]
+                    · have h1' : Py.startsWith t "-" = false := by simpa using h1
+                      simp [h1']
+                  have hsafeb : safeFlags.contains t = false := by simpa using hsafe
+                  have hwb : flagsWithArg.contains t = false := by simpa using hw
+                  have hdb : (t == "-") = false := by simpa using hd
+                  have hcb : (t == "-c") = false := by simpa using hc
+                  have hmb : (t == "-m") = false := by simpa using hm
+                  by_cases hs : Py.startsWith t "-" = true
+                  · have e1 : pythonRuns false (t :: rest) = pythonRuns false rest := by
+                      simp only [pythonRuns, hsafeb, hdb, hcb, hmb, hwb, hshort', Bool.false_eq_true, ↓reduceIte]
+                      simp only [hs, ↓reduceIte]
+                    have e2 : splitOpts false (t :: rest) = (t :: (splitOpts false rest).1, (splitOpts false rest).2.1, (splitOpts false rest).2.2) := by
+                      simp [splitOpts, hd, hc, hm, hw, hplain, hs]
+                    have e3 : findScript false (t :: rest) = findScript false rest := by simp [findScript, hsafe, hc, hm, hw, hplain, hs]
+                    have := ih false
+                    unfold Spec at this ⊢
+                    simp only [e1, e2, e3]
+                    exact spec_cons t _ _ _ _ hsafe hd hc hm this
+                  · have hs' : Py.startsWith t "-" = false := by simpa using hs
+                    have e1 : pythonRuns false (t :: rest) = .script t rest := by
+                      simp only [pythonRuns, hsafeb, hdb, hcb, hmb, hwb, hshort', Bool.false_eq_true, ↓reduceIte]
+                      simp only [hs', Bool.false_eq_true, ↓reduceIte]
+                    have e2 : (splitOpts false (t :: rest)).1 = [] := by simp [splitOpts, hd, hc, hm, hw, hplain, hs']
+                    have e3 : findScript false (t :: rest) = some t := by simp [findScript, hsafe, hc, hm, hw, hplain, hs']
+                    unfold Spec
+                    simp only [e1, e2, e3, SpecOf]
+                    simp [safeIn]
 
 variable (env : Env)
 
@@ -225,8 +325,10 @@ inductive OptPrefix : Bool → List String → Prop where
   | value (t : String) (rest : List String) : OptPrefix false rest → OptPrefix true (t :: rest)
   | withArg (t : String) (rest : List String) : t ≠ "-" → t ≠ "-c" → t ≠ "-m" → t ∈ flagsWithArg →
       OptPrefix true rest → OptPrefix false (t :: rest)
+  | clusterArg (t : String) (rest : List String) : t ≠ "-" → t ≠ "-c" → t ≠ "-m" → t ∉ flagsWithArg → t ∉ safeFlags →
+      scanCluster t = .takesNext → OptPrefix true rest → OptPrefix false (t :: rest)
   | flag (t : String) (rest : List String) : t ≠ "-" → t ≠ "-c" → t ≠ "-m" → t ∉ flagsWithArg →
-      Py.startsWith t "-" = true → OptPrefix false rest → OptPrefix false (t :: rest)
+      scanCluster t = .plain → Py.startsWith t "-" = true → OptPrefix false rest → OptPrefix false (t :: rest)
 
 theorem split_prefix (b : Bool) (pre : List String) (s : String) (args args' : List String) (hp : OptPrefix b pre)
     (hs : Py.startsWith s "-" = false) :
@@ -244,8 +346,9 @@ theorem split_prefix (b : Bool) (pre : List String) (s : String) (args args' : L
   have hs5 : s ∉ safeFlags := by
     intro h
     have := (safe_flag_facts s h).2.2.2.2; rw [hs] at this; cases this
+  have hs6 : scanCluster s = .plain := by simp [scanCluster, hs]
   induction hp with
-  | nil => simp [splitOpts, findScript, hs, hs1, hs2, hs3, hs4, hs5]
+  | nil => simp [splitOpts, findScript, hs, hs1, hs2, hs3, hs4, hs5, hs6]
   | value t rest _ ih => simpa [splitOpts, findScript] using ih
   | withArg t rest h1 h2 h3 h4 _ ih =>
     have h5 : t ∉ safeFlags := fun h => (safe_flag_facts t h).2.2.2.1 h4
@@ -253,13 +356,18 @@ theorem split_prefix (b : Bool) (pre : List String) (s : String) (args args' : L
     simp only [List.cons_append, splitOpts, findScript, hcm, beq_iff_eq, h1, h2, h3, List.contains_eq_mem, h4, h5, decide_true, decide_false,
       Bool.false_eq_true, ↓reduceIte, or_self]
     exact ⟨by rw [ih.1], ih.2.1, ih.2.2⟩
-  | flag t rest h1 h2 h3 h4 h5 _ ih =>
+  | clusterArg t rest h1 h2 h3 h4 h5 hk _ ih =>
+    have hcm : (t == "-c" || t == "-m") = false := by simp [h2, h3]
+    simp only [List.cons_append, splitOpts, findScript, hcm, beq_iff_eq, h1, h2, h3, List.contains_eq_mem, h4, h5, hk, decide_true, decide_false,
+      Bool.false_eq_true, ↓reduceIte, or_self]
+    exact ⟨by rw [ih.1], ih.2.1, ih.2.2⟩
+  | flag t rest h1 h2 h3 h4 hk h5 _ ih =>
     have hcm : (t == "-c" || t == "-m") = false := by simp [h2, h3]
     by_cases h6 : t ∈ safeFlags
-    · simp only [List.cons_append, splitOpts, findScript, hcm, beq_iff_eq, h1, h2, h3, List.contains_eq_mem, h4, h5, h6, decide_true, decide_false,
+    · simp only [List.cons_append, splitOpts, findScript, hcm, beq_iff_eq, h1, h2, h3, List.contains_eq_mem, h4, h5, h6, hk, decide_true, decide_false,
         Bool.false_eq_true, ↓reduceIte, or_self]
       exact ⟨by rw [ih.1], ih.2.1, trivial⟩
-    · simp only [List.cons_append, splitOpts, findScript, hcm, beq_iff_eq, h1, h2, h3, List.contains_eq_mem, h4, h5, h6, decide_true, decide_false,
+    · simp only [List.cons_append, splitOpts, findScript, hcm, beq_iff_eq, h1, h2, h3, List.contains_eq_mem, h4, h5, h6, hk, decide_true, decide_false,
         Bool.false_eq_true, ↓reduceIte, or_self]
       exact ⟨by rw [ih.1], ih.2.1, ih.2.2⟩
 
